@@ -55,6 +55,8 @@ def render(op):
     if k == "dvset":
         name = KINDS[t[1]][1]
         return "print(E(function(){ DV.set%s(%s, %s, %s); return 'ok'; }));" % (name, t[2], js_val(t[4]), "true" if t[3] == "1" else "false")
+    if k == "cw":
+        return "print(E(function(){ V[%s].copyWithin(%s, %s%s); return 'ok'; }));" % (t[1], t[2], t[3], "" if t[4] == "-" else ", " + t[4])
     if k == "copy":
         return "print(E(function(){ V[%s].set(V[%s], %s); return 'ok'; }));" % (t[1], t[2], t[3])
     if k == "detach":
@@ -108,8 +110,12 @@ def gen_history(r, n_ops):
             else:
                 val = "d:" + dbits(INTERESTING[r() % len(INTERESTING)])
             ops.append("set %d %d %s" % (r() % nviews, r() % 7, val))
-        elif c < 89 and nviews > 1:
+        elif c < 86 and nviews > 1:
             ops.append("copy %d %d %d" % (r() % nviews, r() % nviews, r() % 3))
+            ops.append("bytes")
+        elif c < 89 and nviews:
+            # copyWithin: overlapping either way, clamped arguments, optional end
+            ops.append("cw %d %d %d %s" % (r() % nviews, r() % 6, r() % 6, "-" if r() % 2 else str(r() % 7)))
             ops.append("bytes")
         elif c < 92:
             k = [x for x in kinds if x != "u8c"][r() % 9]
@@ -137,6 +143,8 @@ def run(ck):
         "Float32/Float16 rounding (not in the model; those element types are not generated)",
     ]
     ck.prove("BoaVerif.C15.Theorems", driver="drv-c15")
+    # copyWithin: the specification's directional byte loop == the engine's memmove, frame, byte ranges of an in-bounds view
+    ck.prove("BoaVerif.C15.CopyWithin")
     bins = ck.build_harness(["trace"])
     r = lib.rng(ck.seed)
     quick = ck.tier == "quick"
@@ -204,5 +212,5 @@ def run(ck):
         "operation_mix": op_kinds,
         "error_kinds_hit": errors,
         "samples": [kept_ops[0][:12], kept_ops[-1][:12]],
-        "partial": ["Float32/Float16 elements, fill/copyWithin/set/subarray/slice/sort, SharedArrayBuffer and Atomics are not modelled"],
+        "partial": ["Float32/Float16 elements, fill/subarray/slice/sort, SharedArrayBuffer and Atomics are not modelled; copyWithin and set(typedArray) are modelled for non-negative integer arguments"],
     })
